@@ -2,7 +2,7 @@
    Statements only; proofs are in Proofs/MuxProofs.v; the model is Model/MuxHeader.v + Model/Mux.v
    (tied to node/components/network/src/mux/*.rs by the differential check of gen/c14.py). *)
 From Coq Require Import ZArith List Bool Lia Sorting.Sorted.
-From EC Require Import Lib.Outcome Lib.Obs Model.MuxHeader Model.Mux Proofs.MuxProofs Proofs.MuxRefine Proofs.MuxControl.
+From EC Require Import Lib.Outcome Lib.Obs Model.MuxHeader Model.Mux Proofs.MuxProofs Proofs.MuxRefine Proofs.MuxControl Proofs.MuxWire Proofs.MuxPair.
 Import ListNotations.
 Open Scope Z_scope.
 
@@ -204,6 +204,74 @@ Theorem C14_open_streams_bounded_A : forall a b s k c, reachable false a b s ->
                  (lookup_def (bt_of_list (if k =? 0 then sd_con b else sd_acc b)) c)).
 Proof. exact open_streams_bounded_A. Qed.
 Print Assumptions C14_open_streams_bounded_A.
+
+(* ======================================================================================
+   End to end, stage (i)/(ii): the byte wire.  [lframe] = a logical frame (header, payload), [ser] its
+   bytes, tokens (TO / TC / TB b) the chunking-insensitive meaning of a frame sequence.
+   ====================================================================================== *)
+
+(* serialisation is uniquely decodable: a reference parser recovers the frames from the concatenated bytes *)
+Theorem C14_wire_parse : forall na nc fs fuel, Forall (lf_ok na nc) fs -> (length fs <= fuel)%nat ->
+  parse fuel (concat (map ser fs)) = Some fs.
+Proof. exact parse_ser. Qed.
+Print Assumptions C14_wire_parse.
+
+(* the dispatcher as an incremental parser, for any chunking of the byte stream ([wout] = the bytes that
+   have not arrived yet): on a well-formed wire a step never fails; it leaves the tokens pending for
+   every stream unchanged, and a frame it hands to stream (k, i) carries exactly the tokens removed from
+   the front of what was pending for (k, i) - hence the frames delivered to a stream are the frames
+   addressed to it, in order, and nothing addressed elsewhere *)
+Theorem C14_dispatcher_parses : forall c na nc d wout p rest,
+  0 <= rfs c -> wire_ok na nc d wout p rest ->
+  match dstep c na nc d with
+  | DBlocked => True
+  | DFailed _ _ => False
+  | DProgress d' => exists p' rest', wire_ok na nc d' wout p' rest' /\
+                      forall k i, pend k i d' p' rest' = pend k i d p rest
+  | DDeliver d' k i f => exists p' rest', wire_ok na nc d' wout p' rest' /\
+                      (k = tk match d_st d with DAcq0 h | DChunk h _ _ => h | _ => 0 end) /\
+                      (i = ti match d_st d with DAcq0 h | DChunk h _ _ => h | _ => 0 end) /\
+                      ((k = 0 /\ (i < na)%nat) \/ (k = 1 /\ (i < nc)%nat)) /\
+                      pend k i d p rest = ftoks f ++ pend k i d' p' rest' /\
+                      (forall k' i', selh k' i' match d_st d with DAcq0 h | DChunk h _ _ => h | _ => 0 end = false ->
+                                     pend k' i' d' p' rest' = pend k' i' d p rest) /\
+                      (fkind f = FK_OPEN \/ fkind f = FK_CLOSE \/ fkind f = FK_DATA)
+  end.
+Proof. exact dstep_wire. Qed.
+Print Assumptions C14_dispatcher_parses.
+
+(* ======================================================================================
+   End to end, stage (ii)/(iii): the pair of multiplexers.  [side_ok x]: the configuration passes
+   Mux::verify, 1 <= write_frame_size <= 65535, 0 <= read_frame_size, limits >= 0.
+   [pinv s] (Proofs/MuxPair.v): for each direction and each pair of reusable streams,
+   (tokens S's stream has sent after the OPENs R's stream consumed) = (tokens R's stream took since)
+   ++ (tokens in flight: R's queue and cache, the frame the dispatcher works on, the transport).
+   ====================================================================================== *)
+Theorem C14_pair_invariant : forall a b s, side_ok a -> side_ok b -> reachable false a b s -> pinv s.
+Proof. exact reachable_pinv. Qed.
+Print Assumptions C14_pair_invariant.
+
+(* two multiplexers with accepted configurations never end each other's run with an error *)
+Theorem C14_pair_never_fails : forall a b s, side_ok a -> side_ok b -> reachable false a b s ->
+  e_fail (sA s) = None /\ e_fail (sB s) = None.
+Proof. exact pair_never_fails. Qed.
+Print Assumptions C14_pair_never_fails.
+
+(* per incarnation: while R's read half (stream (opp ks, i)) is held by the reader admitted on the n-th
+   OPEN, the bytes read_exact has taken are a prefix of the payload S's stream (ks, i) handed to its
+   writer task for ITS n-th incarnation (writer: handle w); after end-of-stream they are all of it and
+   that incarnation is closed.  Data of no other stream, handle or incarnation can appear. *)
+Theorem C14_stream_isolation_and_order : forall a b s ks i ss sr,
+  side_ok a -> side_ok b -> reachable false a b s ->
+  (get_stream (sA s) ks i = Some ss /\ get_stream (sB s) (opp ks) i = Some sr \/
+   get_stream (sB s) ks i = Some ss /\ get_stream (sA s) (opp ks) i = Some sr) ->
+  s_rph sr = RApp ->
+  exists w cs, nth_error (rev (g_wlog (s_g ss))) (pred (g_rn (s_g sr))) = Some (w, cs) /\
+    is_prefix (rdb sr) (chunks_bytes cs) /\
+    (s_closed sr = true -> rdb sr = chunks_bytes cs /\
+        ((g_rn (s_g sr) < length (g_wlog (s_g ss)))%nat \/ wclosed ss = true)).
+Proof. exact stream_isolation_and_order. Qed.
+Print Assumptions C14_stream_isolation_and_order.
 
 (* ---- what remains of the full statement: NOT proved (see `partial` in evidence/C14.json) ----
    stream_isolation_and_order for the composed two-sided system: the bytes a handle has read are a
